@@ -46,7 +46,7 @@ def rawOptNumeric (scale ref : Int) (v : Val) : Except Err (Option Int) :=
 def colNumeric (nbits scale ref : Int) : ColW := fun allEq values => do
   let n ← natWidth nbits
   let raws ← (if allEq then values.take 1 else values).mapM (rawOptNumeric scale ref)
-  let f ← encIntColumn allEq raws n
+  let f ← encIntColumnN allEq raws n
   pure { bits := f, canon := [], upd := id }
 
 theorem encNumericC_eq (dd : DDesc) (nbits scale ref : Int) (s : St) :
@@ -70,7 +70,7 @@ theorem encNumericC_eq (dd : DDesc) (nbits scale ref : Int) (s : St) :
         | error e => simp only [hr]
         | ok raws =>
           simp only [hr]
-          cases hf : encIntColumn ((v0 :: vs).all fun x => x == v0) raws n <;>
+          cases hf : encIntColumnN ((v0 :: vs).all fun x => x == v0) raws n <;>
             simp [hf, List.reverseAux_eq]
 
 /-! ### code / flag -/
@@ -83,7 +83,7 @@ def rawOptCodeflag (v : Val) : Except Err (Option Int) :=
 
 def colCodeflag (n : Nat) : ColW := fun allEq values => do
   let raws ← (if allEq then values.take 1 else values).mapM rawOptCodeflag
-  let f ← encIntColumn allEq raws n
+  let f ← encIntColumnN allEq raws n
   pure { bits := f, canon := [], upd := id }
 
 theorem encCodeflagC_eq (dd : DDesc) (n : Nat) (s : St) :
@@ -103,7 +103,7 @@ theorem encCodeflagC_eq (dd : DDesc) (n : Nat) (s : St) :
       | error e => simp only [hr]
       | ok raws =>
         simp only [hr]
-        cases hf : encIntColumn ((v0 :: vs).all fun x => x == v0) raws n <;>
+        cases hf : encIntColumnN ((v0 :: vs).all fun x => x == v0) raws n <;>
           simp [hf, List.reverseAux_eq]
 
 /-! ### character -/
